@@ -199,7 +199,8 @@ func runShard(bin string, cfg config, id string, checks int, seed uint64, shard 
 		"VERIF_SHARD_SEED="+strconv.FormatUint(seed, 10), "VERIF_WORK="+work)
 	cmd.Env = append(cmd.Env, cfg.Env...)
 	if cfg.Race {
-		cmd.Env = append(cmd.Env, "GORACE=halt_on_error=0 log_path="+filepath.Join(work, fmt.Sprintf("race-%d", shard)))
+		rl := filepath.Join(work, fmt.Sprintf("race-%d", shard))
+		cmd.Env = append(cmd.Env, "GORACE=halt_on_error=0 log_path="+rl, "VERIF_RACE_LOG="+rl)
 	}
 	var buf bytes.Buffer
 	cmd.Stdout, cmd.Stderr = &buf, &buf
@@ -240,7 +241,8 @@ func replayMany(bin, work string, paths []string, withSelfCheck bool) (map[strin
 	}
 	cmd := exec.Command(bin, "-test.run", runre, "-test.timeout", "10m", "-test.count=1")
 	cmd.Dir = work
-	cmd.Env = append(os.Environ(), "VERIF_REPLAY="+strings.Join(paths, string(os.PathListSeparator)))
+	rl := filepath.Join(work, fmt.Sprintf("race-replay-%d", time.Now().UnixNano()))
+	cmd.Env = append(os.Environ(), "VERIF_REPLAY="+strings.Join(paths, string(os.PathListSeparator)), "GORACE=halt_on_error=0 log_path="+rl, "VERIF_RACE_LOG="+rl)
 	var buf bytes.Buffer
 	cmd.Stdout, cmd.Stderr = &buf, &buf
 	err := cmd.Run()
